@@ -127,4 +127,52 @@ pub(crate) fn t_vt_glue(cols: usize, rows: usize) {
     forget(terminal);
 }
 
+/// V-calls: the call structure of the two mutating entry points (Terminal methods replaced by
+/// call loggers): `resize` = Terminal::resize, then changes(), then gc(), each exactly once;
+/// `feed_str("ab")` = execute per printable character, then changes() and gc() exactly once.
+/// Composes t_resize_* / t_changes / t_gc / the execute families into the public calls.
+pub(crate) fn t_vt_calls() {
+    let terminal = Terminal::new((2, 2), Some(1));
+    let mut vt = Vt { parser: Parser::new(), terminal };
+    let cols = any_in(1, 9);
+    let rows = any_in(1, 9);
+    unsafe {
+        CALL_N = 0;
+    }
+    {
+        let ch = vt.resize(cols, rows);
+        std::mem::forget(ch);
+    }
+    #[cfg(kani)]
+    {
+        let (n, log) = unsafe { (CALL_N, CALL_LOG) };
+        assert!(n == 3 && log[0] == 1 && log[1] == 2 && log[2] == 3, "[C13][C15][C12] Vt::resize resizes the terminal, collects the changed lines and trims the scrollback, once each");
+        assert!(vt.size() == (cols, rows), "[C02] size() reports the geometry last requested");
+    }
+    unsafe {
+        CALL_N = 0;
+    }
+    {
+        let ch = vt.feed_str("ab");
+        std::mem::forget(ch);
+    }
+    #[cfg(kani)]
+    {
+        let (n, log) = unsafe { (CALL_N, CALL_LOG) };
+        assert!(n == 4 && log[0] == 4 && log[1] == 4 && log[2] == 2 && log[3] == 3, "[C13][C15][C12] Vt::feed_str executes every function, then collects the changed lines and trims the scrollback, once each");
+    }
+    unsafe {
+        CALL_N = 0;
+    }
+    vt.feed('c');
+    #[cfg(kani)]
+    {
+        let (n, log) = unsafe { (CALL_N, CALL_LOG) };
+        assert!(n == 1 && log[0] == 4, "[C12] Vt::feed only executes the function");
+    }
+    kv_end!();
+    let Vt { parser: _, terminal } = vt;
+    forget(terminal);
+}
+
 include!("vt_gen.rs");
